@@ -29,18 +29,14 @@ func newGoMapObject(value reflect.Value) *goMapObject {
 	}
 }
 
-func (o goMapObject) toKey(name string) reflect.Value {
-	reflectValue, err := stringToReflectValue(name, o.keyType.Kind())
-	if err != nil {
-		panic(err)
-	}
-	return reflectValue
-}
-
-func (o goMapObject) toValue(value Value) reflect.Value {
+func (o goMapObject) toValue(rt *runtime, value Value) reflect.Value {
 	reflectValue, err := value.toReflectValue(o.valueType)
 	if err != nil {
-		panic(err)
+		panic(rt.panicConversionError(err))
+	}
+	if !reflectValue.IsValid() {
+		// undefined / null for a value type that has no such value.
+		reflectValue = reflect.Zero(o.valueType)
 	}
 	return reflectValue
 }
@@ -93,16 +89,28 @@ func goMapDefineOwnProperty(obj *object, name string, descriptor property, throw
 	if descriptor.mode != 0o111 {
 		return obj.runtime.typeErrorResult(throw)
 	}
-	if !descriptor.isDataDescriptor() {
+	// Only a value can be stored: no accessors, no attribute-only descriptors.
+	value, ok := descriptor.value.(Value)
+	if !ok || goObj.value.IsNil() {
 		return obj.runtime.typeErrorResult(throw)
 	}
-	goObj.value.SetMapIndex(goObj.toKey(name), goObj.toValue(descriptor.value.(Value)))
+	key, err := stringToReflectValue(name, goObj.keyType.Kind())
+	if err != nil {
+		// The name can't be a key of this map.
+		return obj.runtime.typeErrorResult(throw)
+	}
+	goObj.value.SetMapIndex(key, goObj.toValue(obj.runtime, value))
 	return true
 }
 
 func goMapDelete(obj *object, name string, throw bool) bool {
 	goObj := obj.value.(*goMapObject)
-	goObj.value.SetMapIndex(goObj.toKey(name), reflect.Value{})
+	key, err := stringToReflectValue(name, goObj.keyType.Kind())
+	if err != nil || goObj.value.IsNil() {
+		// The name can't be a key of this map, nothing to delete.
+		return true
+	}
+	goObj.value.SetMapIndex(key, reflect.Value{})
 	// FIXME
 	return true
 }
